@@ -393,3 +393,8 @@ mod tests {
         assert_eq!(mc.msgs.len(), 0);
     }
 }
+
+#[cfg(kani)]
+pub(crate) mod verif {
+    include!(concat!(env!("LIBP2P_VERIF"), "/hooks/gossipsub_mcache.rs"));
+}
